@@ -1119,12 +1119,62 @@ def rule_R3(ctx, entry_keys, chain_dict):
     ctx.note("entry keys written: %s; chain keys written: %s (+ conditional %s)" % (sorted(must["ENTRY"]), sorted(must["CHAIN"]), sorted(optional["CHAIN"])))
 
 
+def rule_D4(ctx):
+    """What is pickled into the trace (the entry dictionaries, their data points) survives pickling whole: the
+    default protocol stores every slot / attribute; a class that customises it (__reduce__, __reduce_ex__,
+    __getstate__ / __setstate__, __getnewargs__) must hand every constructor input back — an input left to its
+    default on load is lost (and every density that reads it changes)."""
+    prog = ctx.prog
+    ctx.rule("D4", "classes whose instances are pickled into the trace either use default pickling or return every constructor input from their custom protocol", 3)
+    hooks = ("__reduce__", "__reduce_ex__", "__getstate__", "__setstate__", "__getnewargs__", "__getnewargs_ex__", "__copyreg__")
+    mods = ("phyclone.data", "phyclone.tree")
+    n = 0
+    for ci in prog.classes.values():
+        if not any(ci.module.name.startswith(m) for m in mods):
+            continue
+        n += 1
+        custom = [m for m in ci.methods.values() if m.name in hooks]
+        if not custom:
+            ctx.ok("D4", "%s: default pickling (all state stored)" % ci.name, "%s" % ci.module.name)
+            continue
+        init = ci.methods.get("__init__")
+        params = list(init.params)[1:] if init is not None else []
+        for m in custom:
+            if m.name in ("__reduce__", "__reduce_ex__"):
+                rets = [r for r in ast.walk(m.node) if isinstance(r, ast.Return) and isinstance(r.value, ast.Tuple) and len(r.value.elts) >= 2]
+                if not rets:
+                    raise AnalysisError("%s.%s: cannot read the reduce tuple" % (ci.name, m.name))
+                for r in rets:
+                    args = r.value.elts[1]
+                    state = r.value.elts[2] if len(r.value.elts) > 2 else None
+                    if not isinstance(args, ast.Tuple):
+                        raise AnalysisError("%s.%s: constructor arguments are not a tuple display" % (ci.name, m.name))
+                    given = len(args.elts)
+                    stated = {x.attr for x in ast.walk(state) if isinstance(x, ast.Attribute)} | {k.value for k in getattr(state, "keys", []) if isinstance(k, ast.Constant)} if state is not None else set()
+                    lost = [p for p in params[given:] if p not in stated]
+                    ctx.check(not lost, "D4", "%s.%s returns every constructor input" % (ci.name, m.name), m.where(r), "%s.%s rebuilds the object from %d of %d constructor inputs: %s fall back to their defaults when a trace is read (pickle, and the copy of the data sent to worker processes)" % (ci.name, m.name, given, len(params), ", ".join(lost)), construct=m.qualname, stmt="reduce tuple")
+            else:
+                slots = set()
+                for st_ in ci.node.body:
+                    if isinstance(st_, ast.Assign) and any(isinstance(t, ast.Name) and t.id == "__slots__" for t in st_.targets):
+                        slots |= {e.value for e in ast.walk(st_.value) if isinstance(e, ast.Constant) and isinstance(e.value, str)}
+                if init is not None:
+                    slots |= {x.attr for x in ast.walk(init.node) if isinstance(x, ast.Attribute) and isinstance(x.ctx, ast.Store) and isinstance(x.value, ast.Name) and x.value.id == "self"}
+                used = {x.attr for x in ast.walk(m.node) if isinstance(x, ast.Attribute)} | {c.value for c in ast.walk(m.node) if isinstance(c, ast.Constant) and isinstance(c.value, str)}
+                whole = any(isinstance(x, ast.Attribute) and x.attr in ("__dict__", "__slots__") for x in ast.walk(m.node))
+                lost = sorted(slots - used) if not whole else []
+                ctx.check(not lost, "D4", "%s.%s covers every attribute" % (ci.name, m.name), m.where(), "%s.%s leaves out %s" % (ci.name, m.name, ", ".join(lost)), construct=m.qualname, stmt="state covers attributes")
+    if n < 3:
+        raise AnalysisError("D4: expected the data point and tree classes, found %d classes" % n)
+
+
 def run(ctx):
     ctx.assume("TreeNode.add_data_point_list, rustworkx extend_from_edge_list / remove_nodes_from / node_indices behave as documented")
     ctx.assume("pickle preserves dictionaries, lists and DataPoint objects; float equality after restore is not decided")
     ctx.soft(rule_D1)
     ctx.soft(rule_D2)
     ctx.soft(rule_D3)
+    ctx.soft(rule_D4)
     entry = ctx.soft(rule_R1)
     if entry is not None:
         chain_dict = ctx.soft(rule_R2, entry)
